@@ -650,7 +650,8 @@ class BuildBatches(Unit):
          '                        else:', 'genuine'),
         ('element rejected by preprocess still batched', '                                except Exception as e:\n                                    x = e', '                                except Exception as e:\n                                    pass', ''),
         ('error short-circuited under another uid', 'q_out.put((uid, RemoteException(x)))', 'q_out.put((0, RemoteException(x)))', 'own uid'),
-        ('read lock leaked on exit', '                            q_out.put(z)\n                            return', '                            q_out.put(z)\n                            q_in._rlock.acquire()\n                            return', 'read lock'),
+        ('read lock leaked on exit', '                            q_in.put(z)  # broadcast to fellow workers.\n', '                            q_in.put(z)  # broadcast to fellow workers.\n                            q_in._rlock.acquire()\n', 'read lock'),
+        ('pre-fix defect: the collector thread forwards the end marker ahead of the results still being computed', '                            q_in.put(z)  # broadcast to fellow workers.\n', '                            q_in.put(z)  # broadcast to fellow workers.\n                            q_out.put(z)\n', 'does not forward the end marker'),
         ('element dropped when more input is waiting', '                        if not q_in.empty() and buffer.qsize() < batchsize:\n                            z = q_in.get()',
          '                        if not q_in.empty() and buffer.qsize() < batchsize:\n                            z = q_in.get()\n                            z = q_in.get()', ''),
     )
@@ -785,9 +786,12 @@ class BuildBatches(Unit):
     def post(self, ex, outs):
         for k, s, p in outs:
             if k in ('normal', 'return'):
-                ex.oblige(s, 'exit: only on the end marker: put once on the buffer, re-broadcast once, forwarded once (in that order); every item taken was dispatched exactly once; the shared read lock and the buffer mutex are released',
-                          z3.And(s.ghost['none_buf'] == 1, s.ghost['rebroadcast'] == 1, s.ghost['none_out'] == 1, s.ghost['dispatched'] == self.q_in.nget(s),
+                ex.oblige(s, 'exit: only on the end marker: put once on the buffer, re-broadcast once (in that order); every item taken was dispatched exactly once; the shared read lock and the buffer mutex are released',
+                          z3.And(s.ghost['none_buf'] == 1, s.ghost['rebroadcast'] == 1, s.ghost['dispatched'] == self.q_in.nget(s),
                                  self.rlock.held(s) == 0, self.buf.mutex.held(s) == 0))
+                ex.oblige(s, 'exit: [C11] the collector THREAD does not forward the end marker to the output queue: the main loop does, when it takes the marker out of the buffer, i.e. BEHIND the results of '
+                             'the batches collected before it (a marker sent from here overtakes them: the reader stops at it, and results then written to an unread pipe-backed queue block the worker for good)',
+                          s.ghost['none_out'] == 0)
             else:
                 ex.oblige(s, 'exit: no Exception escapes the collector thread', z3.Not(V.isinst(p, 'Exception')))
 
